@@ -28,6 +28,10 @@ def secret_sets(rng, tier):
         ["https://v.example/activate/%s?locale=en&code=%s#f" % (m(0), m(0)), "https://v.example/device/%s?user_code=%s" % (m(1), m(1)),
          "%s?%s=%s&x" % (m(2), m(2), m(2)), "https://v.example/activate/%s?locale=en&user_code=%s#%s" % (m(3), m(3), m(3))],
         ["a/%s" % m(0), "%s:%s@host" % (m(1), m(1)), "#%s" % m(2), "?%s" % m(3)],
+        # blank secrets: the output may not even tell an empty or whitespace-only secret from any other
+        ["", " ", "\n", "\r\n"],
+        [" \t ", "", "\u00a0", "\x00"],
+        ["x", "", "0", "[redacted]"],
     ]
     if tier == "thorough":
         sets.append([m(0) * 6000, m(1) * 6000, m(2) * 10, m(3)])   # > 64 KiB
@@ -87,7 +91,7 @@ def run(tier, rng, C):
     v += pv
     stats.update(pstats)
     stats["rule"] = ("14 containers (client, 7 request builders with Debug, authorization request, token / introspection / device-authorization responses, revocable token, an Option/Vec/tuple nesting) "
-                     "x 5 public-string sets (incl. look-alikes of the redaction text and of struct syntax) x 6 secret sets (random markers, format-directive look-alikes, newlines/CR/TAB, quotes/backslash/non-ASCII/ESC, "
+                     "x 5 public-string sets (incl. look-alikes of the redaction text and of struct syntax) x 9 secret sets (blank / whitespace-only / one-character secrets, random markers, format-directive look-alikes, newlines/CR/TAB, quotes/backslash/non-ASCII/ESC, "
                      "long up to %s) x {:?} and {:#?}: exact output vs the extracted model, no 4-byte window of a secret in the output, identical output across the secret sets; "
                      "%d rustc probes (no Display/Deref/Into<String>/== /Hash without the feature, == and Hash with it, verifier not Clone, DeviceAccessTokenRequest not Debug); every case non-trivial"
                      % ("> 64 KiB" if tier == "thorough" else "6 KiB", pstats["compile_probes"]))
